@@ -369,11 +369,11 @@ theorem update_passes_partial (os : Str) (orc : Oracle) (f : Str) (cs : List Cor
     · simp [hrun]
   rw [hfile]
   -- strengthen `Built` with the no-`:cst` hypothesis of each correction
-  have hbuilt' : All2 (fun e1 c => Built e1 c ∧ (∀ l ∈ splitIncl (c.attrsStr ++ ['\n']), noCstLine l))
+  have hbuilt' : All2 (fun e1 c => Built os e1 c ∧ (∀ l ∈ splitIncl (c.attrsStr ++ ['\n']), noCstLine l))
       (parseFile os (writeTests [] cs)) cs := by
-    have : ∀ {es : List Entry} {cs' : List Correction}, All2 Built es cs' →
+    have : ∀ {es : List Entry} {cs' : List Correction}, All2 (Built os) es cs' →
         (∀ c ∈ cs', ∀ l ∈ splitIncl (c.attrsStr ++ ['\n']), noCstLine l) →
-        All2 (fun e1 c => Built e1 c ∧ (∀ l ∈ splitIncl (c.attrsStr ++ ['\n']), noCstLine l)) es cs' := by
+        All2 (fun e1 c => Built os e1 c ∧ (∀ l ∈ splitIncl (c.attrsStr ++ ['\n']), noCstLine l)) es cs' := by
       intro es cs' hb
       induction hb with
       | nil => intro _; exact All2.nil
@@ -383,14 +383,14 @@ theorem update_passes_partial (os : Str) (orc : Oracle) (f : Str) (cs : List Cor
   -- pointwise consequence
   have hmono : ∀ {es e1s : List Entry},
       All2 (fun e e1 => ∃ c, (∃ l a, e.attrs.languages = [l] ∧ orc l e.input = some a ∧ c = (updateLang {} e a).1) ∧
-        (Built e1 c ∧ (∀ l ∈ splitIncl (c.attrsStr ++ ['\n']), noCstLine l))) es e1s →
+        (Built os e1 c ∧ (∀ l ∈ splitIncl (c.attrsStr ++ ['\n']), noCstLine l))) es e1s →
       All2 (PassesAfter orc) es e1s := by
     intro es e1s hh
     induction hh with
     | nil => exact All2.nil
     | @cons e e1 _ _ hx _ ih =>
       refine All2.cons ?_ ih
-      obtain ⟨c, ⟨l, a, hl, ho, hc⟩, ⟨hd, hout⟩, hnc⟩ := hx
+      obtain ⟨c, ⟨l, a, hl, ho, hc⟩, ⟨hd, _, hout⟩, hnc⟩ := hx
       have hkey := updateLang_skey {} e a
       rw [← hc] at hkey
       simp only [Entry.dkey, Correction.dkey, Prod.mk.injEq] at hd
@@ -401,7 +401,7 @@ theorem update_passes_partial (os : Str) (orc : Oracle) (f : Str) (cs : List Cor
       subst hl2
       have ha : a' = a := by rw [ho] at ho'; simpa using ho'.symm
       subst ha
-      obtain ⟨sepf, hsepf, hso⟩ := hout hnc
+      obtain ⟨sepf, hsepf, hso, _⟩ := hout hnc
       obtain ⟨n, k, ts, hj, hbal⟩ := inFormatClass_spec hcls
       have hco : c.output = formatSexp {} (actualOf e a') := by
         rw [hc]; exact updateLang_output_pass {} e a' h1 h2 h3 h4
@@ -424,6 +424,372 @@ theorem update_passes_partial (os : Str) (orc : Oracle) (f : Str) (cs : List Cor
       rw [htrim]
       exact normalize_section n k ts hbal sepf hsepf
   exact hmono hcomp
+
+/-! ## a second update is the identity -/
+
+/-- The rendering of the parser is usable as an expectation: the field-less rendering shows no field,
+a rendering without fields equals the field-less one, and an error-free rendering is a balanced
+token sequence (measured on every run for the real parser). -/
+structure ActOK (a : Actual) : Prop where
+  plainNoFields : hasFieldsOf a.sexpPlain = false
+  fieldsEq : hasFieldsOf a.sexpFields = false → a.sexpPlain = a.sexpFields
+  classF : containsSub strERROR a.sexpFields = false → containsSub strMISSING a.sexpFields = false →
+    inFormatClass a.sexpFields = true
+  classP : containsSub strERROR a.sexpPlain = false → containsSub strMISSING a.sexpPlain = false →
+    inFormatClass a.sexpPlain = true
+
+/-- Entries the idempotence theorem covers: one language, not `:cst`, `has_fields` as the reader computes
+it, an expectation that is empty or a balanced S-expression, a usable parser answer. -/
+structure EntryOK (orc : Oracle) (e : Entry) : Prop where
+  oneLang : ∃ l, e.attrs.languages = [l]
+  noCst : e.attrs.cst = false
+  hf : e.hasFields = hasFieldsOf e.output
+  out : e.output = [] ∨ inFormatClass e.output = true
+  act : ∀ l a, e.attrs.languages = [l] → orc l e.input = some a → ActOK a
+
+/-- Boolean form of `ActOK`, evaluated by the driver on every answer of the real parser. -/
+def actOKb (a : Actual) : Bool :=
+  !hasFieldsOf a.sexpPlain && (hasFieldsOf a.sexpFields || a.sexpPlain == a.sexpFields) &&
+  (containsSub strERROR a.sexpFields || containsSub strMISSING a.sexpFields || inFormatClass a.sexpFields) &&
+  (containsSub strERROR a.sexpPlain || containsSub strMISSING a.sexpPlain || inFormatClass a.sexpPlain)
+
+theorem actOK_of_b {a : Actual} (h : actOKb a = true) : ActOK a := by
+  simp only [actOKb, Bool.and_eq_true, Bool.not_eq_true', Bool.or_eq_true, beq_iff_eq] at h
+  obtain ⟨⟨⟨h1, h2⟩, h3⟩, h4⟩ := h
+  refine ⟨h1, fun hf => ?_, fun he hm => ?_, fun he hm => ?_⟩
+  · rcases h2 with h2 | h2
+    · simp [hf] at h2
+    · exact h2
+  · rcases h3 with (h3 | h3) | h3
+    · simp [he] at h3
+    · simp [hm] at h3
+    · exact h3
+  · rcases h4 with (h4 | h4) | h4
+    · simp [he] at h4
+    · simp [hm] at h4
+    · exact h4
+
+/-- The expectation that ends up in the file for a run test (`format_sexp` of it is written). -/
+def keptX (e : Entry) (a : Actual) : Str :=
+  match e.attrs.expect with
+  | .error => e.output
+  | _ =>
+    if actualOf e a == e.output then e.output
+    else if containsSub strERROR (actualOf e a) || containsSub strMISSING (actualOf e a) then e.output
+    else actualOf e a
+
+theorem keptX_cases (e : Entry) (a : Actual) :
+    keptX e a = e.output ∨ (keptX e a = actualOf e a ∧ actualOf e a ≠ e.output ∧
+      containsSub strERROR (actualOf e a) = false ∧ containsSub strMISSING (actualOf e a) = false ∧
+      e.attrs.expect ≠ .error) := by
+  unfold keptX
+  split
+  · exact Or.inl rfl
+  · next hne =>
+    split
+    · exact Or.inl rfl
+    · split
+      · exact Or.inl rfl
+      · next h1 h2 =>
+        simp only [Bool.or_eq_true, not_or, Bool.not_eq_true] at h2
+        exact Or.inr ⟨rfl, by simpa using h1, h2.1, h2.2, fun h => hne h⟩
+
+theorem updateLang_keptX (fx : Fixes) (e : Entry) (a : Actual) (hc : e.attrs.cst = false) :
+    (updateLang fx e a).1 = e.corr (formatSexp fx (keptX e a)) := by
+  unfold updateLang keptX actualOf
+  simp only [hc, Bool.false_eq_true, ↓reduceIte]
+  cases e.attrs.expect <;> simp only <;> (repeat' split) <;> simp_all [Entry.corr]
+
+theorem keptX_ok (orc : Oracle) (e : Entry) (a : Actual) (he : EntryOK orc e) (ha : ActOK a) :
+    keptX e a = [] ∨ inFormatClass (keptX e a) = true := by
+  unfold keptX
+  cases e.attrs.expect <;> simp only
+  · split
+    · exact he.out
+    · split
+      · exact he.out
+      · next h1 h2 =>
+        right
+        simp only [Bool.or_eq_true, not_or, Bool.not_eq_true] at h2
+        unfold actualOf at h2 ⊢
+        split
+        · next hh => simp only [hh, ↓reduceIte] at h2; exact ha.classF h2.1 h2.2
+        · next hh => simp only [hh, Bool.false_eq_true, ↓reduceIte] at h2; exact ha.classP h2.1 h2.2
+  · exact he.out
+  · split
+    · exact he.out
+    · split
+      · exact he.out
+      · next h1 h2 =>
+        right
+        simp only [Bool.or_eq_true, not_or, Bool.not_eq_true] at h2
+        unfold actualOf at h2 ⊢
+        split
+        · next hh => simp only [hh, ↓reduceIte] at h2; exact ha.classF h2.1 h2.2
+        · next hh => simp only [hh, Bool.false_eq_true, ↓reduceIte] at h2; exact ha.classP h2.1 h2.2
+
+theorem trim_pretty (n : Str) (k : Nat) (ts : List Tok) (hbal : Bal (.opn n k :: ts) 0 false) :
+    trim (prettyToks (.opn n k :: ts) 0 false) = prettyToks (.opn n k :: ts) 0 false := by
+  obtain ⟨x, hx⟩ := pretty_ends _ _ _ hbal
+  have hz : ∃ z, prettyToks (.opn n k :: ts) 0 false = '(' :: z := by
+    cases ts <;> exact ⟨_, by simp [prettyToks, openPre]; rfl⟩
+  obtain ⟨z, hz⟩ := hz
+  have : ∃ w, z = w ++ [')'] := by
+    rw [hz] at hx
+    cases x with
+    | nil => simp at hx
+    | cons a0 x' =>
+      simp only [List.cons_append, List.cons.injEq] at hx
+      exact ⟨x', hx.2⟩
+  obtain ⟨w, hw⟩ := this
+  rw [hz, hw]
+  exact trim_of_ends w '(' ')' (by decide) (by decide)
+
+/-- What the reader makes of a written expectation `format_sexp x`, `x` empty or a balanced S-expression: `x`. -/
+theorem readback (fx : Fixes) (c : Correction) (x sepf : Str) (hc : c.output = formatSexp fx x)
+    (hx : x = [] ∨ inFormatClass x = true) (hsepf : sepf = [] ∨ sepf = ['\n']) :
+    normalizeSexp (outSection c sepf) = x := by
+  rcases hx with rfl | hcls
+  · have h0 : formatSexp fx [] = [] := by
+      have : ∀ qr, fmtLoop qr 3 { rest := [] } 0 false [] = [] := by intro qr; cases qr <;> decide
+      simp [formatSexp, this]
+    rw [outSection, hc, h0]
+    rcases hsepf with rfl | rfl <;> decide
+  · obtain ⟨n, k, ts, hj, hbal⟩ := inFormatClass_spec hcls
+    rw [outSection, hc, hj, format_tokens fx _ hbal, trim_pretty n k ts hbal]
+    exact normalize_section n k ts hbal sepf hsepf
+
+/-- Second round on one run test: with the expectation read back as `keptX e a`, the same flags and
+input, the update computes the same correction again and does not stop. -/
+theorem updateLang_second (fx : Fixes) (orc : Oracle) (e e1 : Entry) (a : Actual) (he : EntryOK orc e) (ha : ActOK a)
+    (hattrs : e1.attrs = e.attrs) (hout : e1.output = keptX e a) (hhf : e1.hasFields = hasFieldsOf e1.output)
+    (hstop : (updateLang fx e a).2 = false) :
+    (updateLang fx e1 a).1.output = formatSexp fx (keptX e a) ∧ (updateLang fx e1 a).2 = false := by
+  have hc := he.noCst
+  have hc1 : e1.attrs.cst = false := by rw [hattrs]; exact hc
+  rw [updateLang_keptX fx e1 a hc1]
+  -- the rendering compared in the second round
+  have hact := keptX_cases e a
+  have hact1 : actualOf e1 a = actualOf e a := by
+    rcases hact with hk | ⟨hk, _, _, _, _⟩
+    · unfold actualOf; rw [hhf, hout, hk, ← he.hf]
+    · unfold actualOf at hk ⊢
+      rw [hhf, hout, hk]
+      by_cases hh : e.hasFields = true
+      · simp only [hh, ↓reduceIte]
+        by_cases h2 : hasFieldsOf a.sexpFields = true
+        · simp [h2]
+        · have h2' : hasFieldsOf a.sexpFields = false := by simpa using h2
+          simp [h2', ha.fieldsEq h2']
+      · have hh' : e.hasFields = false := by simpa using hh
+        simp [hh', ha.plainNoFields]
+  have hkept1 : keptX e1 a = keptX e a := by
+    unfold keptX
+    rw [hattrs, hact1, hout]
+    rcases hact with hk | ⟨hk, hne, h3, h4, hex⟩
+    · rw [hk]
+    · rw [hk]
+      cases hexp : e.attrs.expect <;> simp_all
+  refine ⟨by simp [Entry.corr, hkept1], ?_⟩
+  -- no stop in the second round
+  unfold updateLang at hstop ⊢
+  simp only [hc, hc1, hattrs, Bool.false_eq_true, ↓reduceIte] at hstop ⊢
+  have hact1' : (if e1.hasFields = true then a.sexpFields else a.sexpPlain) = actualOf e a := hact1
+  have hact0 : (if e.hasFields = true then a.sexpFields else a.sexpPlain) = actualOf e a := rfl
+  rw [hact1', hout]
+  rw [hact0] at hstop
+  cases hexp : e.attrs.expect with
+  | error => simpa [hexp] using hstop
+  | pass =>
+    simp only [hexp] at hstop ⊢
+    rcases hact with hk | ⟨hk, hne, h3, h4, _⟩
+    · rw [hk]
+      by_cases heq : (actualOf e a == e.output) = true
+      · simp [heq]
+      · simp only [heq, Bool.false_eq_true, ↓reduceIte] at hstop ⊢
+        split at hstop <;> split <;> simp_all
+    · rw [hk]; simp
+  | skip =>
+    simp only [hexp] at hstop ⊢
+    rcases hact with hk | ⟨hk, hne, h3, h4, _⟩
+    · rw [hk]
+      by_cases heq : (actualOf e a == e.output) = true
+      · simp [heq]
+      · simp only [heq, Bool.false_eq_true, ↓reduceIte] at hstop ⊢
+        split at hstop <;> split <;> simp_all
+    · rw [hk]; simp
+
+theorem corr_of_built {os : Str} {e1 : Entry} {c : Correction} (hb : Built os e1 c) : e1.corr c.output = c := by
+  have hd := hb.1
+  simp only [Entry.dkey, Correction.dkey, Prod.mk.injEq] at hd
+  obtain ⟨h1, h2, h3, h4, h5⟩ := hd
+  cases c
+  simp_all [Entry.corr]
+
+/-- Second round on one test (both repairs on): the entry read back from the written correction, with the
+same attribute flags, yields the same correction again. -/
+theorem updateEntry_second (fx : Fixes) (hk : fx.keepUnrun = true) (ho : fx.oneCorrection = true) (orc : Oracle)
+    (os : Str) (e e1 : Entry) (c : Correction) (he : EntryOK orc e) (h1 : updateEntry fx orc e = .cont [c])
+    (hb : Built os e1 c) (hnc : ∀ l ∈ splitIncl (c.attrsStr ++ ['\n']), noCstLine l)
+    (hcanon : e.attrs = flagsOf os e.name e.attrsStr) :
+    updateEntry fx orc e1 = .cont [c] := by
+  obtain ⟨l, hl⟩ := he.oneLang
+  obtain ⟨sepf, hsepf, hout, hhf⟩ := hb.2.2 hnc
+  have hattrs : e1.attrs = e.attrs := by
+    have hs := (updateEntry_spec fx orc e [c] h1).1 c (by simp)
+    simp only [Correction.skey, Entry.skey, Prod.mk.injEq] at hs
+    rw [hb.2.1, hcanon, hs.1, hs.2.1]
+  have hc := he.noCst
+  have hinp : e1.input = e.input := by
+    have hd := hb.1
+    simp only [Entry.dkey, Correction.dkey, Prod.mk.injEq] at hd
+    have hs := (updateEntry_spec fx orc e [c] h1).1 c (by simp)
+    simp only [Correction.skey, Entry.skey, Prod.mk.injEq] at hs
+    exact hd.2.2.1.trans hs.2.2
+  -- it suffices to recompute the same output
+  have key : ∀ o, o = c.output → e1.corr o = c := fun o h => h ▸ corr_of_built hb
+  unfold updateEntry at h1 ⊢
+  simp only [hk, hc, hattrs, Bool.false_eq_true, ↓reduceIte] at h1 ⊢
+  by_cases hskip : (e.attrs.expect == Expect.skip) = true
+  · simp only [hskip, ↓reduceIte, Step.cont.injEq, List.cons.injEq, and_true] at h1 ⊢
+    have hco : c.output = formatSexp fx e.output := by rw [← h1]; rfl
+    rw [hout, readback fx c e.output sepf hco he.out hsepf]
+    exact key _ hco.symm
+  · simp only [hskip, Bool.false_eq_true, ↓reduceIte] at h1 ⊢
+    by_cases hpl : e.attrs.platform = true
+    · simp only [hpl, Bool.not_true, Bool.false_eq_true, ↓reduceIte, hl, updateLangs, hinp] at h1 ⊢
+      cases ho' : orc l e.input with
+      | none => simp [ho'] at h1
+      | some a =>
+        simp only [ho'] at h1 ⊢
+        have ha := he.act l a hl ho'
+        by_cases hstop : (updateLang fx e a).2 = true
+        · simp [hstop] at h1
+        · have hstop' : (updateLang fx e a).2 = false := by simpa using hstop
+          simp only [hstop', Bool.false_eq_true, ↓reduceIte, ho, List.nil_append, List.take_succ_cons, List.take_zero,
+            Step.cont.injEq, List.cons.injEq, and_true] at h1
+          have hco : c.output = formatSexp fx (keptX e a) := by rw [← h1, updateLang_keptX fx e a hc]; rfl
+          have hout' : e1.output = keptX e a := by
+            rw [hout]; exact readback fx c _ sepf hco (keptX_ok orc e a he ha) hsepf
+          obtain ⟨h2o, h2s⟩ := updateLang_second fx orc e e1 a he ha hattrs hout' hhf hstop'
+          obtain ⟨o, b, hform⟩ := updateLang_form fx e1 a
+          have ho2 : o = c.output := by
+            have : (updateLang fx e1 a).1.output = o := by rw [hform]; rfl
+            rw [← this, h2o, hco]
+          have hb2 : b = false := by rw [hform] at h2s; exact h2s
+          simp only [hform, hb2, Bool.false_eq_true, ↓reduceIte, ho, List.nil_append, List.take_succ_cons,
+            List.take_zero, Step.cont.injEq, List.cons.injEq, and_true]
+          exact key o ho2
+    · have hpl' : e.attrs.platform = false := by simpa using hpl
+      simp only [hpl', Bool.not_false, ↓reduceIte, Step.cont.injEq, List.cons.injEq, and_true] at h1 ⊢
+      have hco : c.output = formatSexp fx e.output := by rw [← h1]; rfl
+      rw [hout, readback fx c e.output sepf hco he.out hsepf]
+      exact key _ hco.symm
+
+/-- With both repairs every entry with a language yields exactly one correction, position by position. -/
+theorem updateEntries_all2_fixed (fx : Fixes) (hk : fx.keepUnrun = true) (ho : fx.oneCorrection = true) (orc : Oracle) :
+    ∀ (es : List Entry) (acc cs : List Correction), (∀ e ∈ es, e.attrs.languages ≠ []) →
+      updateEntries fx orc es acc = some cs →
+      ∃ new, cs = acc ++ new ∧ All2 (fun e c => updateEntry fx orc e = .cont [c]) es new
+  | [], acc, cs, _, h => by
+    simp only [updateEntries, Option.some.injEq] at h
+    exact ⟨[], by simp [h], All2.nil⟩
+  | e :: es, acc, cs, hl, h => by
+    unfold updateEntries at h
+    cases hu : updateEntry fx orc e with
+    | stop => simp [hu] at h
+    | err => simp [hu] at h
+    | cont cs' =>
+      simp only [hu] at h
+      have hlen := (updateEntry_spec fx orc e cs' hu).2.2 hk ho (hl e (by simp))
+      obtain ⟨new, hnew, hall⟩ := updateEntries_all2_fixed fx hk ho orc es _ cs (fun x hx => hl x (by simp [hx])) h
+      match cs', hlen, hu with
+      | [c], _, hu => exact ⟨c :: new, by simp [hnew], All2.cons hu hall⟩
+
+/-- The second round over a whole file. -/
+theorem updateEntries_second (fx : Fixes) (hk : fx.keepUnrun = true) (ho : fx.oneCorrection = true) (orc : Oracle) :
+    ∀ {es : List Entry} {cs : List Correction}, All2 (fun e c => updateEntry fx orc e = .cont [c]) es cs →
+      ∀ (os : Str) (es1 : List Entry) (acc : List Correction), All2 (Built os) es1 cs →
+        (∀ e ∈ es, EntryOK orc e) → (∀ c ∈ cs, ∀ l ∈ splitIncl (c.attrsStr ++ ['\n']), noCstLine l) →
+        (∀ e ∈ es, e.attrs = flagsOf os e.name e.attrsStr) →
+        updateEntries fx orc es1 acc = some (acc ++ cs)
+  | _, _, .nil, os, es1, acc, hb, _, _, _ => by
+    cases hb
+    simp [updateEntries]
+  | _, _, .cons (a := e) (b := c) h1 hrest, os, es1, acc, hb, he, hnc, hcanon => by
+    cases hb with
+    | cons hb1 hbrest =>
+      rename_i e1 es1'
+      have := updateEntry_second fx hk ho orc os e e1 c (he e (by simp)) h1 hb1 (hnc c (by simp)) (hcanon e (by simp))
+      unfold updateEntries
+      simp only [this]
+      rw [updateEntries_second fx hk ho orc hrest os es1' (acc ++ [c]) hbrest (fun x hx => he x (by simp [hx]))
+        (fun x hx => hnc x (by simp [hx])) (fun x hx => hcanon x (by simp [hx]))]
+      simp
+
+theorem all2_nil_right {α β : Type} {R : α → β → Prop} {as : List α} (h : All2 R as []) : as = [] := by
+  cases h; rfl
+
+theorem getD_fsOf (suf : Str) : (fsOf suf).getD [] = suf := by cases suf <;> simp [fsOf]
+
+/-- `update_idempotent_partial` (model with the repairs `keepUnrun`, `oneCorrection`, `keepSuffixPreamble` on; with
+or without the others): for every corpus file without leading text whose update run writes `Simple`
+corrections without `:cst` line, whose tests have one language, an empty or balanced S-expression
+expectation and a usable parser answer (`EntryOK`), and whose attribute flags are the ones their attribute text stands for
+(`e.attrs = flagsOf os e.name e.attrsStr`: decidable per entry; measured on every real entry) —
+a second update leaves the file byte-identical.
+Missing w.r.t. the full statement: leading text, `:cst` tests, several languages, tests outside `Simple`. -/
+theorem update_idempotent_partial (fx : Fixes) (hk : fx.keepUnrun = true) (ho : fx.oneCorrection = true)
+    (hsp : fx.keepSuffixPreamble = true) (os : Str) (orc : Oracle) (f : Str) (cs : List Correction)
+    (hne : parseFile os f ≠ [])
+    (hpre : preamble os f = [])
+    (hrun : updateEntries fx orc (parseFile os f) [] = some cs)
+    (hent : ∀ e ∈ parseFile os f, EntryOK orc e)
+    (hsimple : ∀ c ∈ cs, Simple c ∧ ∀ l ∈ splitIncl (c.attrsStr ++ ['\n']), noCstLine l)
+    (hse : SufOK '=' ((firstSuffix (splitIncl f)).getD [])) (hsd : SufOK '-' ((firstSuffix (splitIncl f)).getD []))
+    (hcanon : ∀ e ∈ parseFile os f, e.attrs = flagsOf os e.name e.attrsStr) :
+    updateFile fx os orc (updateFile fx os orc f) = updateFile fx os orc f := by
+  generalize hsuf : (firstSuffix (splitIncl f)).getD [] = suf at hse hsd
+  -- first round
+  have h1 : updateFile fx os orc f = writeTests suf cs := by
+    unfold updateFile
+    split
+    · next h => exact absurd h hne
+    · simp [hrun, hsp, hpre, hsuf]
+  obtain ⟨new, hnew, hall⟩ := updateEntries_all2_fixed fx hk ho orc _ [] cs
+    (fun e he => by obtain ⟨l, hl⟩ := (hent e he).oneLang; simp [hl]) hrun
+  simp only [List.nil_append] at hnew
+  subst hnew
+  -- the written file read back
+  have hbuilt := roundtrip_built os suf hse hsd cs (fun c hc => (hsimple c hc).1)
+  have hcs : cs ≠ [] := by
+    intro h0; subst h0
+    exact hne (all2_nil_right hall)
+  obtain ⟨c0, cs', rfl⟩ : ∃ c0 cs', cs = c0 :: cs' := by
+    cases cs with
+    | nil => exact absurd rfl hcs
+    | cons c0 cs' => exact ⟨c0, cs', rfl⟩
+  have hlines := splitIncl_writeTests suf hse.2 c0 cs' (fun c hc => (hsimple c hc).1)
+  have hfs := firstSuffix_written suf hse c0 cs' (fun c hc => (hsimple c hc).1)
+  have hsuf1 : (firstSuffix (splitIncl (writeTests suf (c0 :: cs')))).getD [] = suf := by
+    rw [hlines, hfs, getD_fsOf]
+  have hpre1 : preamble os (writeTests suf (c0 :: cs')) = [] := by
+    unfold preamble
+    simp only [hlines, hfs]
+    obtain ⟨p, hp, _⟩ := parseHeader_hdr os suf c0 (bodyL suf c0 ++ tailLines suf cs') (hsimple c0 (by simp)).1 hse
+    simp only [hdrL, List.cons_append] at hp ⊢
+    rw [preambleLines, hp]
+    simp
+  have hne1 : parseFile os (writeTests suf (c0 :: cs')) ≠ [] := by
+    intro h0; rw [h0] at hbuilt; cases hbuilt
+  -- second round
+  have h2 := updateEntries_second fx hk ho orc hall os _ [] hbuilt hent (fun c hc => (hsimple c hc).2) hcanon
+  simp only [List.nil_append] at h2
+  rw [h1]
+  unfold updateFile
+  split
+  · next h => exact absurd h hne1
+  · simp [h2, hsp, hpre1, hsuf1]
 
 /-! ## updates through a name filter (`--include` / `--exclude`) -/
 
@@ -573,5 +939,13 @@ def fEx : Str := ['=', '=', '=', '\n', 't', '\n', '=', '=', '=', '\n', 'a', '\n'
 example : (parseFile [] fEx).map (·.output) = [['(', 'x', ')']] ∧
     (parseFile [] (updateFile {} [] okOracle fEx)).map (·.output) = [sxSource] ∧
     inFormatClass sxSource = true := by decide +kernel
+
+/-- Non-vacuity of `update_idempotent_partial`: on the concrete file `fEx` with all repairs on, the hypotheses
+that are decidable hold (`actOKb`, canonical flags, empty leading text) and the second update is the identity. -/
+def fxAll : Fixes := { keepUnrun := true, oneCorrection := true, keepSuffixPreamble := true, quoteReset := true, keepCstFiltered := true }
+example : actOKb okActual = true ∧ preamble [] fEx = [] ∧
+    (parseFile [] fEx).all (fun e => decide (e.attrs = flagsOf [] e.name e.attrsStr)) = true ∧
+    updateFile fxAll [] okOracle fEx ≠ fEx ∧
+    updateFile fxAll [] okOracle (updateFile fxAll [] okOracle fEx) = updateFile fxAll [] okOracle fEx := by decide +kernel
 
 end TsVerif.C20
